@@ -118,6 +118,11 @@ func worker() {
 		src.KeepLabels = false
 		res := safeRun(p, src, wantTrace)
 		out.Add(i, src, res)
+		if res.Poisoned {
+			// parked tasks hold real locks: this process cannot run anything else
+			out.CappedAt = i
+			break
+		}
 		if logf != nil {
 			fmt.Fprintf(logf, "%d %016x %016x\n", i, src.Hash(), res.LogHash)
 		}
@@ -407,9 +412,13 @@ func driver() {
 		if rec.Cold {
 			budget, dur = 60, 60*time.Second
 		}
+		needFresh := rec.Cold || rec.V.Oracle == "progress" // a deadlocked run poisons its process
+		if needFresh && !rec.Cold {
+			budget, dur = 40, 60*time.Second
+		}
 		evalC := func(c []uint32, tr bool) (*oneOut, error) {
-			if rec.Cold {
-				return evalProc(c, 0, true, tr)
+			if needFresh {
+				return evalProc(c, 0, rec.Cold, tr)
 			}
 			return evalTape(p, c, false, tr)
 		}
@@ -423,8 +432,8 @@ func driver() {
 		// final decoded trace from the minimised tape; fall back to the original when the
 		// minimised one does not reproduce (flaky shrink) – the original always is a replay.
 		evalF := func(c []uint32) (*oneOut, error) {
-			if rec.Cold {
-				return evalProc(c, 0, true, true)
+			if needFresh {
+				return evalProc(c, 0, rec.Cold, true)
 			}
 			return evalTape(p, c, fresh, true)
 		}
